@@ -480,6 +480,183 @@ fn child_par(case: &ParCase) -> Value {
     })
 }
 
+// ---------------------------------------------------------------------------------------------
+// `fresh`: N OS threads on sibling threads, lined up by a barrier every round; in every round all
+// of them compile and run a program over names nobody has interned before (the same names in all
+// threads): record fields read through a row-polymorphic accessor, polymorphic variant tags, and
+// the host reads the fields by name; besides, every thread interns K further fresh names directly.
+fn fresh_field(b: u64, r: u64, i: u64) -> String {
+    format!("c14b{}r{}f{}", b, r, i)
+}
+fn fresh_tag(b: u64, r: u64, c: &str) -> String {
+    format!("C14b{}r{}{}", b, r, c)
+}
+fn fresh_extra(b: u64, r: u64, k: u64) -> String {
+    format!("c14b{}r{}n{}", b, r, k)
+}
+fn fresh_val(t: u64, r: u64, i: u64) -> i64 {
+    ((t + 1) * 100 + i + r) as i64
+}
+fn fresh_prog(b: u64, r: u64, t: u64, f: u64) -> String {
+    let (ta, tb) = (fresh_tag(b, r, "A"), fresh_tag(b, r, "B"));
+    let sum = (0..f).map(|i| format!("x.{}", fresh_field(b, r, i))).collect::<Vec<_>>().join(" #Int+ ");
+    let rec = (0..f)
+        .map(|i| format!("{} = {}", fresh_field(b, r, i), fresh_val(t, r, i)))
+        .collect::<Vec<_>>()
+        .join(", ");
+    format!(
+        "type VA a = | {ta} Int .. a\nlet pa v : VA a -> Int =\n    match v with\n    | {ta} n -> n\n    | _ -> 0 #Int- 1000000\ntype VB a = | {tb} Int .. a\nlet pb v : VB a -> Int =\n    match v with\n    | {tb} n -> n #Int* 3\n    | _ -> 0 #Int- 2000000\nlet total x = {sum}\nlet rcd = {{ {rec}, c14b{b}r{r}unused = 0 }}\n{{ sum = total rcd #Int+ pa ({ta} {s}) #Int+ pb ({tb} {s}), r = rcd }}\n",
+        ta = ta, tb = tb, sum = sum, rec = rec, b = b, r = r, s = t + 1
+    )
+}
+
+/// Run the program of (round, thread) on `th`; `Ok((sum field, host-side sum of the fields))`.
+fn fresh_run(th: &Thread, b: u64, r: u64, t: u64, f: u64, name: &str) -> Result<(i64, i64), String> {
+    use gluon::vm::api::ValueRef;
+    let text = fresh_prog(b, r, t, f);
+    let (v, _) = th
+        .run_expr::<OpaqueValue<RootedThread, gluon::vm::api::Hole>>(name, &text)
+        .map_err(|e| format!("err:{}", sanitize(&e.to_string(), 60)))?;
+    let v = v.get_variant();
+    let data = match v.as_ref() {
+        ValueRef::Data(d) => d,
+        _ => return Err("err:result_not_a_record".into()),
+    };
+    let int_of = |x: Option<gluon::vm::Variants>| -> Option<i64> {
+        match x.map(|x| x.as_ref()) {
+            Some(ValueRef::Int(i)) => Some(i),
+            _ => None,
+        }
+    };
+    let sum = int_of(data.lookup_field(th, "sum")).ok_or("err:lookup_field_sum_failed")?;
+    let inner = data.lookup_field(th, "r").ok_or("err:lookup_field_r_failed")?;
+    let inner = match inner.as_ref() {
+        ValueRef::Data(d) => d,
+        _ => return Err("err:field_r_not_a_record".into()),
+    };
+    let mut host = 0i64;
+    for i in 0..f {
+        host += int_of(inner.lookup_field(th, &fresh_field(b, r, i)))
+            .ok_or_else(|| "err:lookup_field_of_fresh_name_failed".to_string())?;
+    }
+    Ok((sum, host))
+}
+
+fn child_fresh(v: &Value) -> Value {
+    install_panic_hook();
+    let n = v["nthreads"].as_u64().unwrap();
+    let rounds = v["rounds"].as_u64().unwrap();
+    let f = v["fields"].as_u64().unwrap();
+    let k = v["extra"].as_u64().unwrap();
+    let b = v["base"].as_u64().unwrap();
+    let mk = || {
+        let vm = gv::vm::new_vm();
+        vm.get_database_mut().set_implicit_prelude(false);
+        vm
+    };
+    // ---- solo values: the same programs, one after the other, on a second VM
+    let t_solo = std::time::Instant::now();
+    let mut solo: Vec<Vec<Result<(i64, i64), String>>> = vec![];
+    {
+        let vm = mk();
+        let ths: Vec<RootedThread> = (0..n).map(|_| vm.new_thread().unwrap()).collect();
+        for r in 0..rounds {
+            solo.push((0..n).map(|t| fresh_run(&ths[t as usize], b, r, t, f, &format!("solo_t{}_r{}", t, r))).collect());
+        }
+    }
+    let hang_after = Duration::from_secs(30).max(t_solo.elapsed() * 25);
+    // ---- parallel
+    let vm = mk();
+    let barrier = Arc::new(Barrier::new(n as usize));
+    let progress = Arc::new(AtomicU64::new(0));
+    let mut hs = vec![];
+    for t in 0..n {
+        let th = vm.new_thread().unwrap();
+        let (barrier, progress) = (barrier.clone(), progress.clone());
+        hs.push(std::thread::spawn(move || {
+            let mut out: Vec<Result<(i64, i64), String>> = vec![];
+            let mut ptrs: Vec<usize> = vec![];
+            let mut broken: Option<String> = None;
+            for r in 0..rounds {
+                barrier.wait();
+                // keep taking part in the barrier after a panic (the context mutex is poisoned)
+                if let Some(e) = &broken {
+                    out.push(Err(e.clone()));
+                    ptrs.extend((0..k).map(|_| 0));
+                    continue;
+                }
+                let res = gv::catch(|| {
+                    let x = fresh_run(&th, b, r, t, f, &format!("par_t{}_r{}", t, r));
+                    let p: Vec<usize> = (0..k)
+                        .map(|j| th.global_env().intern(&fresh_extra(b, r, j)).map(|s| s.as_ptr() as usize).unwrap_or(1))
+                        .collect();
+                    (x, p)
+                });
+                match res {
+                    Ok((x, p)) => {
+                        out.push(x);
+                        ptrs.extend(p);
+                    }
+                    Err(msg) => {
+                        let e = format!("panic:{}:{}", PANIC_AT.with(|p| p.borrow().clone()), sanitize(&msg, 50));
+                        out.push(Err(e.clone()));
+                        ptrs.extend((0..k).map(|_| 0));
+                        broken = Some(e);
+                    }
+                }
+                progress.fetch_add(1, Ordering::SeqCst);
+            }
+            (out, ptrs)
+        }));
+    }
+    let t0 = std::time::Instant::now();
+    while !hs.iter().all(|h| h.is_finished()) {
+        if t0.elapsed() > hang_after {
+            println!("{}", json!({"hang": true, "waited_ms": t0.elapsed().as_millis() as u64, "rounds_done": progress.load(Ordering::SeqCst)}));
+            std::process::exit(0);
+        }
+        std::thread::sleep(Duration::from_millis(5));
+    }
+    let per: Vec<(Vec<Result<(i64, i64), String>>, Vec<usize>)> = hs.into_iter().map(|h| h.join().unwrap()).collect();
+    // ---- compare
+    let mut ok = 0u64;
+    let mut checksum = 0i64;
+    let mut diffs: Vec<String> = vec![];
+    for t in 0..n as usize {
+        for r in 0..rounds as usize {
+            let (p, s) = (&per[t].0[r], &solo[r][t]);
+            if let Ok((a, h)) = p {
+                ok += 1;
+                checksum += a + h;
+            }
+            if p != s && diffs.len() < 12 {
+                diffs.push(format!("thread {} round {}: parallel {:?}, alone {:?}", t, r, p, s));
+            }
+        }
+    }
+    let n_diffs = (0..n as usize).map(|t| (0..rounds as usize).filter(|r| per[t].0[*r] != solo[*r][t]).count()).sum::<usize>();
+    // representations per directly interned name: all threads and one later request must agree
+    let mut maxreps = if k > 0 || f > 0 { 1 } else { 0 };
+    let mut split_names = 0u64;
+    for r in 0..rounds {
+        for j in 0..k {
+            let idx = (r * k + j) as usize;
+            let mut set: std::collections::BTreeSet<usize> = per.iter().map(|p| p.1[idx]).filter(|p| *p != 0).collect();
+            if let Ok(again) = vm.global_env().intern(&fresh_extra(b, r, j)) {
+                set.insert(again.as_ptr() as usize);
+            }
+            if set.len() > 1 {
+                split_names += 1;
+            }
+            maxreps = maxreps.max(set.len());
+        }
+    }
+    let solo_errs = solo.iter().flatten().filter(|x| x.is_err()).count();
+    json!({"ok": ok, "checksum": checksum, "maxreps": maxreps, "split_names": split_names,
+           "diffs": n_diffs, "examples": diffs, "solo_errors": solo_errs,
+           "first_solo_error": solo.iter().flatten().find_map(|x| x.clone().err())})
+}
+
 /// `locks`: threads 0 = root, 1.. = children of root (created in this order); OS thread j repeats
 /// its operation `iters` times:
 ///   ["reroot", d, s]   re-root a value owned by thread s into thread d  (RootedValue::re_root)
@@ -628,6 +805,7 @@ fn child_main() {
     let r = match v["kind"].as_str().unwrap() {
         "par" => child_par(&ParCase::from_json(&v)),
         "locks" => child_locks(&v),
+        "fresh" => child_fresh(&v),
         _ => json!({"setup_error": "unknown kind"}),
     };
     println!("{}", r);
@@ -1173,6 +1351,58 @@ fn run_locks(out: &mut Out, nth: usize, ops: &[LOp], iters: u64, timeout: Durati
     out.case(&req, &payload);
 }
 
+// ---------------------------------------------------------------------------------------------
+// fresh names
+fn run_fresh(out: &mut Out, n: u64, rounds: u64, f: u64, k: u64, b: u64) {
+    let cj = json!({"kind": "fresh", "nthreads": n, "rounds": rounds, "fields": f, "extra": k, "base": b});
+    let req = format!("fresh {} {} {} {} {}", n, rounds, f, k, b);
+    let ex = run_child(&serde_json::to_vec(&cj).unwrap(), Duration::from_secs(900));
+    const FP: &str = "unsafe:parallel-run+fresh-names";
+    let payload = match &ex {
+        gv::child::Exit::Ok(o) => {
+            let v: Value = serde_json::from_str(o.trim()).unwrap_or(json!({"setup_error": o}));
+            if v.get("setup_error").is_some() {
+                eprintln!("c14: fresh: unparseable child output {}", o);
+                std::process::exit(3);
+            }
+            if v.get("hang").is_some() {
+                out.oracle_fail(FP, &format!("[deadlock] {} OS threads compiling programs over fresh names stopped making progress after {} rounds", n, v["rounds_done"]), cj.clone());
+                "(hang)".to_string()
+            } else {
+                if v["solo_errors"].as_u64().unwrap_or(0) > 0 {
+                    eprintln!("c14: fresh: a program fails when run alone: {}\n{}", v["first_solo_error"], fresh_prog(b, 0, 0, f));
+                    std::process::exit(3);
+                }
+                if v["diffs"].as_u64().unwrap_or(0) > 0 {
+                    out.oracle_fail(FP, &format!("[result-differs-from-solo] {} of {} programs over fresh field/tag names gave another result than alone, e.g. {}", v["diffs"], n * rounds, v["examples"]), cj.clone());
+                }
+                if v["split_names"].as_u64().unwrap_or(0) > 0 {
+                    out.oracle_fail(FP, &format!("[interned-twice] {} fresh names have more than one interned representation (up to {})", v["split_names"], v["maxreps"]), cj.clone());
+                }
+                format!("(fresh (ok {}) (maxreps {}) (checksum {}))", v["ok"], v["maxreps"], v["checksum"])
+            }
+        }
+        gv::child::Exit::Timeout(_) => {
+            out.oracle_fail(FP, "[deadlock] backstop watchdog", cj.clone());
+            "(hang)".to_string()
+        }
+        gv::child::Exit::Signal(sig, _, err) => {
+            out.oracle_fail(FP, &format!("[crash] child died with signal {} ({})", sig, err.lines().last().unwrap_or("")), cj.clone());
+            "(crash)".to_string()
+        }
+        gv::child::Exit::Code(c, _, err) => {
+            out.oracle_fail(FP, &format!("[crash] child exited with code {} ({})", c, err.lines().last().unwrap_or("")), cj.clone());
+            "(crash)".to_string()
+        }
+    };
+    out.count("kind:fresh-names");
+    out.add("fresh-name-rounds", rounds);
+    out.add("fresh-name-programs", n * rounds);
+    out.class(format!("fresh:n{}:{}", n, ex.class()));
+    out.sample(json!({"case": cj, "impl": payload}));
+    out.case(&req, &payload);
+}
+
 fn main() {
     if std::env::args().any(|a| a == "--child") {
         child_main();
@@ -1193,6 +1423,10 @@ fn main() {
         for round in 0..5 {
             match case["kind"].as_str().unwrap_or("") {
                 "par" => run_par(&mut out, &ParCase::from_json(&case), &mut rng, par_timeout),
+                "fresh" => {
+                    let u = |k: &str| case[k].as_u64().unwrap();
+                    run_fresh(&mut out, u("nthreads"), u("rounds"), u("fields"), u("extra"), u("base"))
+                }
                 "locks" => {
                     let ops: Vec<LOp> = case["ops"].as_array().unwrap().iter().map(LOp::from_json).collect();
                     run_locks(&mut out, case["nthreads"].as_u64().unwrap() as usize, &ops, case["iters"].as_u64().unwrap(), lock_timeout)
@@ -1239,6 +1473,12 @@ fn main() {
     for _ in 0..extra {
         let p: Vec<LOp> = (0..2).map(|_| Reroot(rngx.below(4) as usize, rngx.below(4) as usize)).collect();
         run_locks(&mut out, 4, &p, iters, lock_timeout);
+    }
+
+    // ---- fresh names: N in {2,4,8,16}; names are unique per (seed, case, round)
+    let fr_rounds = if thorough { 600 } else { 150 };
+    for (ci, n) in [2u64, 4, 8, 16].iter().enumerate() {
+        run_fresh(&mut out, *n, fr_rounds, 8, 4, (args.seed % 100_000) * 10 + ci as u64);
     }
 
     // ---- parallel runs
